@@ -30,21 +30,19 @@ Obs == ndJsonDeserialize(ObsFile)
 RefV(e, i)     == Valid(e.unit.defs, e.unit.schema, e.unit.docs[i], {}, "decl", NoLim)
 ImplV(e, i, D) == Valid(e.unit.defs, e.unit.schema, e.unit.docs[i], D, "decl", NoLim)
 ObsV(r)        == IF r.err \/ r.panic THEN Rej ELSE Acc
-\* Which open deviations account for a disagreement that the model with all of Devs predicts: those
-\* that are necessary (removing x changes the prediction) or sufficient (x alone departs from the
-\* reference); if the disagreement is over-determined or needs a combination, every deviation that
-\* changes the prediction in some context.
+\* Which open deviations account for a verdict that the model with all of Devs predicts: those that
+\* are necessary (removing x changes the prediction) or sufficient (x alone departs from the
+\* reference); if the disagreement is over-determined and needs a combination: Devs jointly.
 Explains(e, i) ==
   LET ns == {x \in Devs : \/ ImplV(e, i, Devs \ {x}) # ImplV(e, i, Devs)
                            \/ ImplV(e, i, {x}) # RefV(e, i)}
-  IN IF ns # {} THEN ns
-     ELSE {x \in Devs : \E S \in SUBSET (Devs \ {x}) : ImplV(e, i, S \cup {x}) # ImplV(e, i, S)}
+  IN IF ns # {} THEN ns ELSE Devs
 
 \* value fidelity (Judge = "value"): for a valid document that was accepted, the reflective dump must
 \* hold the document (Decoded) and the re-marshalled JSON must reproduce it (Reproduced)
 ValueOK(e, i, D) ==
   /\ e.res[i].val.t # "none" /\ Decoded(e.unit.defs, e.unit.schema, e.unit.docs[i], e.res[i].val, D)
-  /\ e.res[i].out.t # "none" /\ Reproduced(e.unit.defs, e.unit.schema, e.unit.docs[i], e.res[i].out)
+  /\ e.res[i].out.t # "none" /\ Reproduced(e.unit.defs, e.unit.schema, e.unit.docs[i], e.res[i].out, D)
 
 Class(e, i) ==
   LET ref == RefV(e, i)  o == ObsV(e.res[i])  impl == ImplV(e, i, Devs) IN
@@ -60,7 +58,9 @@ Class(e, i) ==
 Report(n, e, i, c) ==
   PrintT("REPORT " \o ToJson([l |-> n, i |-> i, class |-> c,
                              kind |-> IF ObsV(e.res[i]) = RefV(e, i) THEN "value" ELSE "verdict",
-                             devs |-> SetToSeq(Explains(e, i)),
+                             devs |-> IF ObsV(e.res[i]) = RefV(e, i)
+                                      THEN SetToSeq({x \in Devs : ValueOK(e, i, {x})})    \* value disagreement
+                                      ELSE SetToSeq(Explains(e, i)),
                              ref |-> RefV(e, i), obs |-> ObsV(e.res[i]), impl |-> ImplV(e, i, Devs)]))
 
 (* ---- C15: the Go type chosen under --min-sized-ints (read from the compiled program by reflection) ---- *)
